@@ -238,6 +238,7 @@ pub struct LibWorld {
     pub jobs_created: u32,
     pub holders: Vec<tokio::task::JoinHandle<()>>,
     pub in_handler: bool,
+    pub main_ended: bool,
 }
 
 fn lib<R>(f: impl FnOnce(&mut LibWorld) -> R) -> R {
@@ -716,6 +717,7 @@ async fn e2_root(scn: E2Scn) {
     let main = wx.main();
     let monitor = tokio::spawn(async move {
         let r = main.await;
+        lib(|l| l.main_ended = true);
         match r {
             Ok(Ok(())) => log(Ev::MainEnd { ok: true, msg: String::new() }),
             Ok(Err(e)) => {
@@ -786,8 +788,8 @@ async fn settle(quiet: u64) {
         let before = with_run(|r| r.seq);
         sleep_ms(quiet).await;
         let (after, busy) = (with_run(|r| r.seq), lib(|l| l.in_handler));
-        // nothing at all was recorded for a whole stretch and no handler is running
-        if after == before && !busy {
+        // nothing at all was recorded for a whole stretch and no handler is running (or main is over)
+        if after == before && (!busy || lib(|l| l.main_ended)) {
             return;
         }
     }
